@@ -228,7 +228,7 @@ fn shaped(s: &Sexp, k: i64, g: i64, j: &mut i64) -> AnyView {
 pub fn run(c: &Sexp) -> Sexp {
     let t = |k: i64, g: i64, j: i64| format!("{k}.{g}.{j}");
     match c.at(0).num() {
-        11 | 12 => crate::c11for::run(c),
+        11 | 12 | 13 => crate::c11for::run(c),
         14 => crate::c11store::run(c),
         20 => {
             let shapes = c.at(4).list();
